@@ -4,6 +4,7 @@ import (
 	"fmt"
 	"slices"
 
+	"github.com/gopher-fleece/gleece/v2/common"
 	"github.com/gopher-fleece/gleece/v2/core/annotations"
 	"github.com/gopher-fleece/gleece/v2/core/arbitrators"
 	"github.com/gopher-fleece/gleece/v2/core/metadata"
@@ -73,11 +74,17 @@ func (v *ApiValidator) validateControllers() ([]diagnostics.EntityDiagnostic, []
 func (v *ApiValidator) getRouteEntries(controller *metadata.ControllerMeta) []paths.RouteEntry {
 	entries := make([]paths.RouteEntry, 0, len(controller.Receivers))
 
+	// Routes are served under their controller's route so that's what conflicts must be judged by.
+	// The full path is composed the same way the spec and routes generators compose it
+	controllerRoute := controller.Struct.Annotations.GetFirstValueOrEmpty(annotations.GleeceAnnotationRoute)
+
 	for _, route := range controller.Receivers {
 		entries = append(
 			entries,
 			paths.RouteEntry{
-				Path:   route.Annotations.GetFirstValueOrEmpty(annotations.GleeceAnnotationRoute),
+				Path: common.RemoveDuplicateSlash(
+					controllerRoute + route.Annotations.GetFirstValueOrEmpty(annotations.GleeceAnnotationRoute),
+				),
 				Method: route.Annotations.GetFirstValueOrEmpty(annotations.GleeceAnnotationMethod),
 				Meta: paths.RouteEntryMeta{
 					Controller: controller,
